@@ -505,8 +505,8 @@ func (d *dataWorld) opSelect(tp *simkit.Tape, stats map[string]int) {
 	if pick == 3 && simkit.Params["partition"] == "strict" {
 		pick = 6
 	}
-	if pick >= 18 && pick <= 20 && simkit.Params["partition"] == "strict" {
-		pick = 8 // (known findings C02-F3 and C02-F4)
+	if pick >= 19 && pick <= 20 && simkit.Params["partition"] == "strict" {
+		pick = 8 // (known finding C02-F4)
 	}
 	switch pick {
 	case 0, 1:
@@ -739,10 +739,8 @@ func (d *dataWorld) orderFinding(shape string, o *opResult) {
 	if len(o.received) < 2 {
 		return
 	}
-	switch {
-	case shape == "order-by-position":
-		d.finding = "C02-F3"
-	case strings.HasPrefix(shape, "group-by-order-by-aggregate"):
+	// (ORDER BY <position> was finding C02-F3 until fix 411f53a repaired it: a recurrence is a violation)
+	if strings.HasPrefix(shape, "group-by-order-by-aggregate") {
 		d.finding = "C02-F4"
 	}
 }
